@@ -17,6 +17,6 @@ int main (void)
   H (MPI_ERR_AMODE); H (MPI_ERR_UNSUPPORTED_DATAREP); H (MPI_ERR_UNSUPPORTED_OPERATION); H (MPI_ERR_NO_SUCH_FILE);
   H (MPI_ERR_FILE_EXISTS); H (MPI_ERR_BAD_FILE); H (MPI_ERR_ACCESS); H (MPI_ERR_NO_SPACE); H (MPI_ERR_QUOTA);
   H (MPI_ERR_READ_ONLY); H (MPI_ERR_FILE_IN_USE); H (MPI_ERR_DUP_DATAREP); H (MPI_ERR_CONVERSION); H (MPI_ERR_IO);
-  H (MPI_COMM_NULL); H (MPI_COMM_WORLD); H (MPI_GROUP_NULL); H (MPI_IDENT);
+  H (MPI_COMM_NULL); H (MPI_COMM_WORLD); H (MPI_GROUP_NULL); H (MPI_IDENT); H (MPI_MAX_ERROR_STRING); H (MPI_THREAD_SINGLE);
   return 0;
 }
